@@ -128,7 +128,10 @@ type recStream struct {
 	resp    []kv.RecoveryResponse
 	err     error
 	eofSent bool
+	handed  int
 }
+
+var errStreamBroken = errors.New("verif: recovery stream broken (injected transport error)")
 
 func (r *recStream) Send(req kv.RecoveryRequest) error {
 	r.req, r.sent = req, true
@@ -143,8 +146,12 @@ func (r *recStream) Receive() (kv.RecoveryResponse, error) {
 		r.resp, r.err = r.s.runRecoveryServer(r)
 	}
 	if len(r.resp) > 0 {
+		if r.s.cutStream(r) {
+			return kv.RecoveryResponse{}, errStreamBroken
+		}
 		out := r.resp[0]
 		r.resp = r.resp[1:]
+		r.handed++
 		return out, nil
 	}
 	if r.err != nil {
